@@ -77,7 +77,7 @@ func init() {
 			"computed values are compared in a canonical form that identifies the dimension zero across units and Unit 0 with Scalar (webrender's own convention: a dimension without unit is a float)",
 			"text-decoration-* propagation and page:auto are modelled as webrender documents them (descendants end up with the ancestor's value), not as plain defaulting",
 			"ex/ch are checked with the Ahem font only (x-height 0.8em, advance of 0 = 1em)",
-			"feature combinations that trigger known genuine defects are kept out of the generated cases and replayed from findings/C04/",
+			"no feature combination is excluded at present: every defect found while building the check (findings/C04) is fixed in /repo and generated again; the exclusion mechanism (table / template flags) stays for future findings",
 		},
 		Exhaustive: func(tier string) bool { return false },
 		Batch:      100,
